@@ -56,6 +56,17 @@ def main(scale):
         emit(t + 'json', buf.getvalue())
         attempt(t + 'literal', lambda: c.tostring('python-literal'))
         attempt(t + 'crc32', lambda: c.crc32())
+        # one unknown label: the error names it
+        attempt(t + 'unknown label', lambda: c.intension(list(objs[:1]) + ['no such object']))
+        attempt(t + 'unknown label (extension)', lambda: c.extension(['no such property']))
+        attempt(t + 'unknown format', lambda: c.tostring('spam'))
+        attempt(t + 'unknown format (definition)', lambda: c.definition().tostring('nope'))
+        # several unknown labels: WHICH one the KeyError names comes out of set(members) inside bitsets' frommembers
+        # (known finding D7: compared separately in props/c17.py)
+        attempt('KNOWN-D7 ' + t + 'intension', lambda: c.intension(['zeta', 'alpha', 'mid', 'beta']))
+        attempt('KNOWN-D7 ' + t + 'extension', lambda: c.extension(['zeta', 'alpha', 'mid', 'beta']))
+        attempt('KNOWN-D7 ' + t + 'getitem', lambda: c[['zeta', 'alpha', 'mid', 'beta']])
+        attempt('KNOWN-D7 ' + t + 'getitem mixed', lambda: c[list(objs[:2]) + list(props[:1])])
         attempt(t + 'repr', lambda: repr(c))
         cs = list(L)
         emit(t + 'order', [(x.index, x.dindex, x.extent, x.intent, [u.index for u in x.upper_neighbors], [l.index for l in x.lower_neighbors],
@@ -71,6 +82,8 @@ def main(scale):
             emit(t + 'upset_union%d' % j, [y.index for y in L.upset_union(seeds)])
             emit(t + 'downset_union%d' % j, [y.index for y in L.downset_union(seeds)])
             emit(t + 'join%d' % j, (L.join(seeds).index, L.meet(seeds).index))
+            # seeds with comparable members (bottom and top added): the result does not depend on how a set of concepts iterates
+            attempt(t + 'upset_generalization%d' % j, lambda: [y.index for y in L.upset_generalization(seeds + [cs[0], cs[-1]])])
         attempt(t + 'relations', lambda: str(c.relations()))
         attempt(t + 'relations-unary', lambda: c.relations(include_unary=True).tostring())
         attempt(t + 'neighbors', lambda: c.neighbors(objs[:1]))
